@@ -97,6 +97,15 @@ std::pair<bool, Eigen::VectorXd> GPFCorrection::getLikelihood()
 
 void GPFCorrection::correctStep(const bfl::ParticleSet& pred_particles, bfl::ParticleSet& corr_particles)
 {
+    /* The predicted set is read after the corrected one has been written:
+       work on a copy if the caller passed the same object for both. */
+    if (&pred_particles == &corr_particles)
+    {
+        const ParticleSet pred_copy = pred_particles;
+        correctStep(pred_copy, corr_particles);
+        return;
+    }
+
     /* Propagate Gaussian belief associated to each particle. */
     gaussian_correction_->correct(pred_particles, corr_particles);
 
